@@ -18,6 +18,8 @@ THEOREMS = [
     ('EAO.Properties.C15', 'EAO.C15.fix_window_feasible', 'the previous solution stays feasible and nothing new becomes feasible'),
     ('EAO.Properties.C15', 'EAO.C15.fix_window_value_unchanged', 'with unchanged costs an optimal previous solution stays optimal: the optimal value is unchanged'),
 ]
+from ..comp import fixsplit as FS
+THEOREMS = THEOREMS + FS.THEOREMS_C15_SPLIT
 COMPONENTS = ['fixWindow vs Portfolio.setup_optim_problem(fix_time_window=...) (bounds, fixed variable set)']
 RULE = ('random portfolios incl. transports, multi-commodity, CHP with fuel, coarse assets, order books (several mapping rows per variable); window as index mask '
         '(numpy mask, every third one as plain Python list of bools) or date; '
@@ -28,11 +30,28 @@ RULE = ('random portfolios incl. transports, multi-commodity, CHP with fuel, coa
         'containers the set-up may refuse (tuple of ints / of bools, pandas Series of ints / of bools, pandas Index, numpy mask of dtype object) are tried too: a refusal is recorded '
         'as feature (window-form-rejected, split-window-form-rejected) and the window goes on as numpy array, an acceptance is held to the same oracle; '
         'every such window goes through the unsplit AND (T >= 4) the split set-up (the object-dtype mask too: both set-ups refuse it since fix 1f28d50, finding F-15e); '
+        'third stream (cw*, comp/c15coarse.py): assets with an OWN COARSER frequency that carry INTERNAL variables (Storage with freq = 2, 3, 4, 6 grid steps and '
+        'no_simult_in_out and / or max_store_duration, plain or inside a ScaledAsset; beside it a further coarse contract / transport / storage, a storage with booleans or a plant '
+        'with on / start variables at grid frequency, a plant with a coarser frequency as probe - refused by the class at present), coarse steps anchored at the horizon start or at '
+        'the asset\'s own start inside the grid, remainder of the horizon after the last complete coarse step; windows defined relative to the coarse steps: run starting inside a '
+        'coarse step, tail of one coarse step, one single inner step, the very last step, scattered, all inner steps of all coarse steps, whole coarse steps, prefix ending inside a '
+        'coarse step (mask and date), only first steps of coarse steps, tail of one and head of the next coarse step - as numpy mask, list of bools, list / array of indices; '
+        'unsplit and split set-up (intervals of whole coarse steps or the default choice); '
+        'and (3b) PREVIOUS SOLUTIONS THAT DIFFER ONLY IN INTERNAL VARIABLES: the solver\'s solution with booleans flipped where that keeps all rows satisfied (same value): '
+        'each goes through set-up (bounds), re-optimisation with new prices (window kept) and with old prices (value unchanged); '
+        'in ALL streams a variable of an asset with an own coarser frequency belongs to every grid step of its coarse step (coarse steps computed from the scenario, not from the mapping); '
         'new random prices; non-trivial = window fixes some but not all variables and the previous solution has non-zero fixed entries; distinct by scenario hash')
-ASSUMPTIONS = ['re-optimised values compared with tolerance 1e-6 relative']
+ASSUMPTIONS = ['re-optimised values compared with tolerance 1e-6 relative',
+               'a variable of an asset with an own coarser frequency (dispatch or internal) belongs to all grid steps its coarse step covers; coarse steps = complete intervals '
+               '[start + k*freq, start + (k+1)*freq) from the asset\'s start (horizon start if none) up to its end (horizon end if none); in the split set-up this reading is applied only '
+               'when every interval begins where coarse steps begin (else: steps as labelled in the mapping); the scale variable of a ScaledAsset belongs to the step it is labelled with',
+               'tie variants: a flip of an internal boolean is taken only if the flipped point satisfies all bounds and rows of the problem with the old prices within 1e-7 and the boolean carries no costs']
 EXPLANATION = ('theorems about the model fixWindow; correspondence of the produced bounds; oracle: exactly the variables with a mapping row whose step lies in the window have both bounds at the previous value, '
                'all other bounds, costs and restrictions are those of the problem without window (unsplit and split set-up; the set of steps of a window given as indices is the set of its entries, of a window given as mask the set of its True positions - whatever the container); '
-               're-optimise the real problem with new prices (fixed entries equal) and with old prices (value unchanged)')
+               're-optimise the real problem with new prices (fixed entries equal) and with old prices (value unchanged); '
+               '"belongs to a step" for assets with an own coarser frequency: the variables of a coarse step (dispatch variables and internal booleans alike) belong to every grid step the '
+               'coarse step covers, so a window that contains any of these steps - not necessarily the first - pins them all (oracle facts coarse_step / var_type; features window-cuts-coarse-step*); '
+               'the same for optimal previous solutions that differ from the solver\'s one in internal variables only (facts tie=True)')
 
 # an EMPTY PYTHON LIST `[]` as window in the SPLIT set-up used to raise IndexError inside eaopack (np.asarray([]) is float64); repaired
 # in /repo (359f616, finding F-15d).  The idx stream gives `[]` to the split set-up as it is (a raise is what='split_raises');
@@ -151,6 +170,10 @@ def scenarios(seed, tier):
     for cid, s in _scenarios(seed, tier):
         if not only or any(cid.startswith(o) for o in only):
             yield cid, s
+    # fix_time_window in the split set-up against its model (window slicing per interval, offsets, skipped intervals), on recorded
+    # real interval problems of all asset classes (comp/fixsplit.py)
+    for cid, c in FS.cases(seed * 7 + 3, 90 if tier == 'quick' else 600):
+        yield cid, {'_stream': 'fixsplit', 'case': c}
 
 
 def _scenarios(seed, tier):
@@ -213,6 +236,19 @@ def split_aligned(tg, interval, cells):
 
 
 def run_case(scn, drv):
+    if isinstance(scn, dict) and scn.get('_stream') == 'fixsplit':
+        case = scn['case']
+        im = FS.run_impl(case)
+        if 'setup_error' in im:
+            return {'evaluated': 1, 'nontrivial': False, 'features': ['stream:fixsplit', 'setup-error'], 'disagreements': [], 'violations': []}
+        r = drv.ask(FS.request(case, im))
+        if 'ok' not in r:
+            return {'evaluated': 1, 'nontrivial': False, 'features': ['stream:fixsplit'], 'violations': [],
+                    'disagreements': [{'component': 'fix window in split', 'detail': 'driver: ' + str(r.get('err'))[:300]}]}
+        vio = FS.oracle(case, im)
+        return {'evaluated': 1, 'nontrivial': 'error' not in im, 'features': ['stream:fixsplit'] + list(FS.features(case, im)),
+                'disagreements': [{'component': 'fix window in split', 'detail': d} for d in FS.compare(case, im, r['ok'])],
+                'violations': [v if isinstance(v, dict) else {'oracle': 'fix_window_split', 'detail': str(v), 'facts': {'stream': 'fixsplit'}} for v in vio]}
     r = {'evaluated': 1, 'nontrivial': False, 'features': [], 'disagreements': [], 'violations': []}
     feats = r['features']
     for a in scn['assets']:
